@@ -14,27 +14,37 @@ variable (cfg : Cfg K V) (hs : Handlers K V C E T H D) (e : E)
 /-- byte-identical resubmission of an indexed transaction: DeliverTx returns the recorded result
     and changes nothing -/
 theorem replay_deliver_noop (n : Node K V C T H D) (tx : T) (r : TxRes D)
-    (h : lookupIdx n.idx (hs.hash tx) = some r) : deliverTx cfg hs e n tx = (n, r) := sorry
+    (h : lookupIdx n.idx (hs.hash tx) = some r) : deliverTx cfg hs e n tx = (n, r) :=
+  deliverTx_hit cfg hs e n tx r h
 
 /-- … and the mempool check rejects it, changing nothing -/
 theorem replay_check_rejected (n : Node K V C T H D) (tx : T) (r : TxRes D)
-    (h : lookupIdx n.idx (hs.hash tx) = some r) : checkTx cfg hs e n tx = (n, false) := sorry
+    (h : lookupIdx n.idx (hs.hash tx) = some r) : checkTx cfg hs e n tx = (n, false) :=
+  checkTx_hit cfg hs e n tx r h
 
 /-- every transaction of an executed block is in the index afterwards -/
 theorem executed_tx_indexed (n : Node K V C T H D) (txs : List T) (tx : T) (hm : tx ∈ txs) :
-    (lookupIdx (execBlock cfg hs e n txs).1.idx (hs.hash tx)).isSome := sorry
+    (lookupIdx (execBlock cfg hs e n txs).1.idx (hs.hash tx)).isSome :=
+  execBlock_indexed cfg hs e n txs tx hm
 
 /-- index entries are never lost or overwritten by later blocks -/
 theorem index_is_stable (n : Node K V C T H D) (blocks : List (List T)) (h : H) (r : TxRes D)
     (hl : lookupIdx n.idx h = some r) :
-    lookupIdx (execBlocks cfg hs e n blocks).1.idx h = some r := sorry
+    lookupIdx (execBlocks cfg hs e n blocks).1.idx h = some r :=
+  execBlocks_lookup_stable cfg hs e blocks n h r hl
 
 /-- history form: once a transaction was in a block, delivering the same bytes in any later block
     (after any further blocks) returns the recorded result and leaves the node untouched -/
 theorem replay_noop_in_later_block (n : Node K V C T H D) (txs : List T) (later : List (List T))
     (tx : T) (hm : tx ∈ txs) :
     let n' := (execBlocks cfg hs e (execBlock cfg hs e n txs).1 later).1
-    ∃ r, deliverTx cfg hs e n' tx = (n', r) ∧ checkTx cfg hs e n' tx = (n', false) := sorry
+    ∃ r, deliverTx cfg hs e n' tx = (n', r) ∧ checkTx cfg hs e n' tx = (n', false) := by
+  intro n'
+  have h1 := execBlock_indexed cfg hs e n txs tx hm
+  obtain ⟨r, hr⟩ := Option.isSome_iff_exists.mp h1
+  have h2 : lookupIdx n'.idx (hs.hash tx) = some r :=
+    execBlocks_lookup_stable cfg hs e later _ _ r hr
+  exact ⟨r, deliverTx_hit cfg hs e n' tx r h2, checkTx_hit cfg hs e n' tx r h2⟩
 
 /-- `Canonical`: two byte strings the handlers cannot tell apart have the same hash. Under it the
     full statement (any re-encoding) holds … -/
@@ -44,7 +54,14 @@ def Canonical (hs : Handlers K V C E T H D) : Prop :=
 theorem replay_any_encoding_noop_partial (hc : Canonical hs) (n : Node K V C T H D) (txs : List T)
     (later : List (List T)) (t₁ t₂ : T) (hm : t₁ ∈ txs) (hsame : hs.deliver t₁ = hs.deliver t₂) :
     let n' := (execBlocks cfg hs e (execBlock cfg hs e n txs).1 later).1
-    ∃ r, deliverTx cfg hs e n' t₂ = (n', r) := sorry
+    ∃ r, deliverTx cfg hs e n' t₂ = (n', r) := by
+  intro n'
+  have h1 := execBlock_indexed cfg hs e n txs t₁ hm
+  obtain ⟨r, hr⟩ := Option.isSome_iff_exists.mp h1
+  have h2 : lookupIdx n'.idx (hs.hash t₁) = some r :=
+    execBlocks_lookup_stable cfg hs e later _ _ r hr
+  rw [hc t₁ t₂ hsame] at h2
+  exact ⟨r, deliverTx_hit cfg hs e n' t₂ r h2⟩
 
 /-! … but JSON is not canonical (S11): the counterexample in the model. Transactions are pairs
     (content, encoding); the handler only looks at the content, the hash at both. -/
@@ -63,6 +80,7 @@ def exN : Node Nat Nat Nat (Nat × Nat) (Nat × Nat) Nat :=
 theorem reencoded_replay_executes_twice :
     let n1 := (execBlock exCfg exH () exN [(5, 0)]).1
     let n2 := (execBlock exCfg exH () n1 [(5, 1)]).1
-    exH.deliver (5, 0) = exH.deliver (5, 1) ∧ n1.tree.get 1 = some 5 ∧ n2.tree.get 1 = some 10 := sorry
+    exH.deliver (5, 0) = exH.deliver (5, 1) ∧ n1.tree.get 1 = some 5 ∧ n2.tree.get 1 = some 10 := by
+  refine ⟨rfl, ?_, ?_⟩ <;> decide
 
 end OLP.Props.C05
